@@ -79,7 +79,7 @@ def learn(cfg, rng):
             clf.perform_classification_dimension_wise(masslumping=cfg['lump'], lambd=cfg['lam'], minimum_level=1, maximum_level=3, max_evaluations=60, print_metrics=False)
         else:
             clf.perform_classification(masslumping=cfg['lump'], lambd=cfg['lam'], minimum_level=1, maximum_level=cfg.get('lmax', 3), one_vs_others=cfg.get('ovo', False), print_metrics=False)
-    lo, hi = clf.get_dataset_range()
+    lo, hi = clf.get_dataset_range() if dr is None else dr      # a requested range is taken from the request, not from the object
     return clf, np.asarray(lo, dtype=float), np.asarray(hi, dtype=float), X, y
 
 
